@@ -1,6 +1,6 @@
 (** [sx -> sx] entry points of the Faults layer for the correspondence runner. *)
 From Coq Require Import List NArith ZArith Bool Arith.
-From LS Require Import Base.Sx Faults.Resumable Faults.Upload Faults.Restore Faults.Compact.
+From LS Require Import Base.Sx Faults.Resumable Faults.Upload Faults.Restore Faults.Compact Faults.Behind.
 Import ListNotations.
 Local Open Scope nat_scope.
 
@@ -226,3 +226,24 @@ Definition compact_inv_ok (x : sx) : sx :=
        (if N.eqb class 0 then ex && cache_is
         else if N.eqb class 2 then negb created   (* ErrNoCompaction: nothing written; the cache may learn the listing *)
         else negb cache_chg && (negb created || fa))).
+
+(** ---- (re)open of a database that may be behind its replica ----------------- *)
+
+(** input  [local L0 at open; remote L0; [[schedule; local L0 after db.Sync] per SyncAndWait]]
+    output [[class; Replica.Pos; [[kind; txid; remote listing after] per client call]] per SyncAndWait]
+    class 0 nil | 1 error; kind 0 LTXFiles | 1 WriteLTXFile | 2 OpenLTXFile *)
+Definition behind_run (x : sx) : sx :=
+  let steps := map (fun st => (map dec_coutcome (asL (nthx 0 st)), asNs (nthx 1 st))) (asL (nthx 2 x)) in
+  let '(_, obs) := sync_waits (b_open (asNs (nthx 1 x)) (asNs (nthx 0 x))) steps in
+  SL (map (fun o => SL [sxN (if N.eqb (so_err o) 0 then 0 else 1)%N; sxN (so_pos o);
+                        SL (map (fun c => SL [sxN (c_kind c); sxN (c_txid c); sxNs (c_after c)]) (so_trace o))]) obs).
+
+(** [ack_means_in_sync] as a test on the implementation's observations, one
+    record per SyncAndWait: [class; local max; remote max; SyncStatus in sync;
+    remote advanced if the source had changed; Restore(latest) = source image; remote L0 gapless] *)
+Definition behind_inv_ok (x : sx) : sx :=
+  sxB (forallb (fun e =>
+         asB (nthx 6 e) &&
+         (if N.eqb (asN (nthx 0 e)) 0
+          then N.eqb (asN (nthx 1 e)) (asN (nthx 2 e)) && asB (nthx 3 e) && asB (nthx 4 e) && asB (nthx 5 e)
+          else true)) (asL (nthx 0 x))).
